@@ -41,4 +41,6 @@ json.dump(meta, open(meta_path,'w'), indent=1)
 # restore evidence files overwritten by the runs on the modified tree
 if not ALT:
     subprocess.run(['git','-C','/verif','checkout','--','evidence'],check=False)
+    # leave bin/exosim built from the restored tree, not from the seeded one
+    subprocess.run(['/verif/check','build'],check=False)
 print("detected_by", meta["detected_by"])
